@@ -28,13 +28,13 @@ impl Constraint for NoA {
     }
 }
 
-/// A second type under the name "lower" (duplicate registration).  Same behaviour as `Lower`,
-/// so that the check function of a name does not depend on which of the two got registered.
+/// A second type under the name "lower" with a different function (accepts everything): whichever
+/// of the two is registered first must stay in force.
 pub struct Lower2;
 impl Constraint for Lower2 {
     const NAME: &'static str = "lower";
-    fn check(part: &str) -> bool {
-        Lower::check(part)
+    fn check(_part: &str) -> bool {
+        true
     }
 }
 
